@@ -139,6 +139,20 @@ theorem tr_wellScoped (flipOf : C01.S2.Query → Bool) (km : KindMap) (q : Cy.Qu
   subst hps
   exact hw
 
+/-- THE PROVED PART over all three stages S1, S2b, S2c (chains of two or three hops), for every join-order choice -/
+theorem c03_partial_S3 (flipOf : C01.S2.Query → Bool) (flipCh : C01.Ch.Query → Bool) : C03_for (C01.tr3F flipOf flipCh) := by
+  intro km q st ps h
+  obtain ⟨hw, hps⟩ := C03.Frag.tr3_wellScoped flipOf flipCh km q st ps h
+  subst hps
+  exact wellScoped_sound _ _ hw
+
+/-- THE PROVED PART over all four stages S1, S1c (count), S2b, S2c, for every join-order choice and the fast path on or off -/
+theorem c03_partial_S4 (flipOf : C01.S2.Query → Bool) (flipCh : C01.Ch.Query → Bool) (fast : Bool) : C03_for (C01.tr4F flipOf flipCh fast) := by
+  intro km q st ps h
+  obtain ⟨hw, hps⟩ := C03.Frag.tr4_wellScoped flipOf flipCh fast km q st ps h
+  subst hps
+  exact wellScoped_sound _ _ hw
+
 /-! ### non-vacuity -/
 
 def env0 : Env := { cat := schema, params := ["pi0"], updating := false }
